@@ -20,6 +20,8 @@ SYN_FOOTERS = [
     (b'<+1245>-12:45<+1345>,M9.5.0/2:45,M4.1.0/3:45', 2), (b'AAA11BBB10:30,J1/0,J365/23:59:59', 2),
     (b'PST8PDT,M3.2.0/+167,M11.1.0/-167', 3), (b'ABC-14ABD-15,60/0,366/0', 2) if False else (b'ABC-14ABD-15,60/0,365/0', 2),
     (b'CHAST-12:45CHADT,M9.5.0/2:45,M4.1.0/3:45', 2), (b'XYZ0XYW-2,M1.1.1/0,M12.5.0/22', 2),
+    # permanent daylight time with a shift other than one hour (the end of DST of each year is the start of the next)
+    (b'<-03>3<-01>1,0/0,J365/26', 3), (b'XXX-2XXY-2:30,0/0,J365/24:30', 3), (b'AAA4AAB5,0/0,J365/23', 3),
 ]
 
 
@@ -123,6 +125,11 @@ def synthetic_zones():
                      ('type0-dst-first-is-3', [3, 2, 0, 2])):
         z = T.TZif(2, base_t, idxs, tps, ab, b'EST5EDT,M3.2.0,M11.1.0')
         out.append(Zone('syn/' + nm, T.write(z), 'synthetic'))
+    # type 0 is a daylight type in use and the first recorded change FALLS BACK onto it from the (standard) type in
+    # force before: the civil seconds shown just before the first change are repeated
+    z = T.TZif(2, [d(1960, 10, 2) * 86400 + 7200, d(1961, 3, 26) * 86400 + 7200, d(1961, 10, 1) * 86400 + 7200, d(1968, 2, 18) * 86400 + 7200],
+               [0, 1, 0, 1], [(0, True, 0), (3600, False, 4)], b'GMT\0IST\0', b'')
+    out.append(Zone('syn/type0-dst-first-change-falls-back', T.write(z), 'synthetic'))
     z = T.TZif(2, base_t, [1, 0, 1, 0], [(-18000, False, 8), (-14400, True, 12)], ab, b'EST5EDT,M3.2.0,M11.1.0')
     out.append(Zone('syn/type0-std-referenced', T.write(z), 'synthetic'))
     z = T.TZif(2, base_t, [1, 2, 1, 2], [(-14400, True, 0), (-14400, True, 4), (-14400, True, 12)], ab, b'')
@@ -146,8 +153,12 @@ def rule_family(rng, n):
     always = [b'EST5EDT,J59/2,J305/2', b'EST5EDT,J60/2,J305/2', b'EST5EDT,J61/2,J305/2', b'EST5EDT,58/2,300/2', b'EST5EDT,59/2,300/2', b'EST5EDT,60/2,300/2',
               b'AEST-10AEDT,J305/2,J60/3', b'EST5EDT,J1/0,J365/23', b'EST5EDT,0/0,365/0' if False else b'EST5EDT,0/1,364/23', b'CET-1CEST,M2.5.0,M3.1.0/3', b'CET-1CEST,M1.1.0/0,M12.5.6/23',
               b'CET-1CEST,M2.4.3/25,M2.5.3/25', b'CET-1CEST,M3.5.0/-24,M10.5.0/-1', b'CET-1CEST,M12.5.0/26,M1.1.0/-2' if False else b'CET-1CEST,M3.1.1/167,M11.5.5/-100']
+    # every month in both positions, second and last week, different weekdays (the month-offset tables)
+    for a in range(1, 7):
+        always.append(b'CET-1CEST,M%d.2.%d/24,M%d.2.%d/24' % (a, (a + 5) % 7, a + 6, (a + 5) % 7))
+        always.append(b'CET-1CEST,M%d.5.%d/2,M%d.5.%d/3' % (a, a % 7, a + 6, (a + 2) % 7))
     pool = []
-    for m in (1, 2, 3, 4, 6, 9, 10, 11, 12):
+    for m in (1, 2, 3, 4, 5, 6, 7, 8, 9, 10, 11, 12):
         for w in (1, 2, 4, 5):
             for wd in (0, 1, 3, 6):
                 pool.append(b'CET-1CEST,M%d.%d.%d/%d,M%d.%d.%d/%d' % (m if m < 7 else 3, w, wd, rng.choice([0, 1, 2, 24, 26]), m if m >= 7 else 10, rng.choice([1, 5]), (wd + 3) % 7, rng.choice([0, 3, 25, -1])))
@@ -218,6 +229,11 @@ def rejected_zones():
         for footer in (b'', b'XST0'):
             z = T.TZif(2, [t0, t0 + gap, t0 + 40 * 86400], [1, 0, 1], [(0, False, 0), (up, True, 4)], b'XST\0XDT\0', footer)
             out.append(Zone('rejected/crossed-%d%s' % (k, '-footer' if footer else ''), T.write(z), 'rejected'))
+    # two transitions at the same instant: the table would not be strictly ordered by time
+    z = T.TZif(2, [100000000, 200000000, 200000000, 300000000], [1, 2, 3, 1], [(0, False, 0), (3600, False, 4), (7200, False, 8), (10800, False, 12)], b'LMT\0AAA\0BBB\0CCC\0', b'')
+    out.append(Zone('rejected/equal-times', T.write(z), 'rejected'))
+    z = T.TZif(1, [100000000, 200000000, 200000000, 300000000], [1, 2, 3, 1], [(0, False, 0), (3600, False, 4), (7200, False, 8), (10800, False, 12)], b'LMT\0AAA\0BBB\0CCC\0', None)
+    out.append(Zone('rejected/equal-times-v1', T.write(z), 'rejected'))
     return out
 
 
@@ -231,6 +247,22 @@ def irregular_zones():
     return [Zone('irregular/rule-instants-before-last-record', w, 'irregular')]
 
 
+def seam_zones():
+    """a well-formed file outside the `SeamOK` hypothesis of the seam theorems (finding F15): by a negative rule time a
+    rule instant belonging to rule-year L+1 lies inside civil year L (L = the last tabulated year); MakeTime, which
+    shifts by civil year, answers the last hour of civil year L with the last table entry's offset, BreakTime, which
+    shifts by instant, sees the change"""
+    w = bytes.fromhex('545a69663200000000000000000000000000000000000000000000000000000000000000000000010000000400000000000055544300'
+                      '545a696632000000000000000000000000000000000000000000000000000000000000010000000200000008000000003b9aca000000000e10000000001c2001045853540058445400'
+                      '0a5853542d315844542c4a312f2d312c4a3138300a')
+    # second variant: the END of daylight time of rule-year L+1 falls into the last hours of civil year L (J1/-3):
+    # instants after it do not round-trip
+    w2 = bytes.fromhex('545a69663200000000000000000000000000000000000000000000000000000000000000000000010000000400000000000055544300'
+                       '545a696632000000000000000000000000000000000000000000000000000000000000010000000200000008000000003b9aca000000000e10000000001c2001045853540058445400'
+                       '0a5853542d315844542c4a36302f302c4a312f2d330a')
+    return [Zone('seam/rule-instant-of-next-year-inside-last-year', w, 'irregular'), Zone('seam/dst-end-of-next-year-inside-last-year', w2, 'irregular')]
+
+
 def corpus(rng, n_real=None):
     real = [Zone(n, b, 'shipped') for n, b in T.shipped_zones()]
     real = [z for z in real if z.z is not None]
@@ -240,7 +272,7 @@ def corpus(rng, n_real=None):
                                               'America/Nuuk', 'Asia/Gaza', 'Pacific/Chatham', 'Antarctica/Troll')]
         rest = [z for z in real if z not in must]
         real = must + rng.sample(rest, max(0, n_real - len(must)))
-    return real + synthetic_zones() + rule_family(rng, 30 if n_real is not None else 120) + edge_rule_zones()
+    return real + synthetic_zones() + rule_family(rng, 42 if n_real is not None else 140) + edge_rule_zones()
 
 
 def probe_instants(zone, rng, per_transition=3, n_random=60, shifts=True):
@@ -271,6 +303,11 @@ def probe_instants(zone, rng, per_transition=3, n_random=60, shifts=True):
                             ts.add(t + k + m * K400)
         last_gen = max(zone.rule_instants(ly + 401))
         ts.update([last_gen - 1, last_gen, last_gen + 1, last_gen + K400 - 1, last_gen + K400, last_gen + K400 + 1])
+        # the turn of the last tabulated year, where the instant shift of lookup(t) and the civil-year shift of lookup(cs) meet
+        for y in (ly + 402, ly + 802):
+            base = C.day_num(y, 1, 1) * 86400
+            ts.update(base + k * 600 for k in range(-30, 31))
+            for t in zone.rule_instants(y): ts.update([t - 1, t, t + 1, t + 1800])
     for _ in range(n_random):
         r = rng.random()
         if r < 0.5: ts.add(rng.randrange(-2**32, 2**33))
@@ -283,8 +320,18 @@ def civil_probes(zone, rng, n_random=40):
     """civil seconds: every gap and overlap of (a sample of) the changes second by second at the
     edges, their neighbours, before the first / after the last, rule years, shifted years, extremes"""
     out = set()
-    ch = zone.change_instants()
-    pick = ch if len(ch) <= 60 else ([ch[0], ch[-1]] + rng.sample(ch, 58))
+    seam = []
+    if zone.has_rule:
+        L = zone.last_year() + 401                # the last tabulated year: MakeTime shifts civil years after it
+        ch = zone.change_instants(extra_years=(L + 1, L + 2))
+        # the turn of the year L / L+1 (and one 400-year cycle later), every ten minutes for four hours either side
+        for y in (L + 1, L + 401):
+            base = C.day_num(y, 1, 1) * 86400
+            seam += [base + k * 600 for k in range(-24, 25)] + [base - 1, base + 1]
+        tail = [t for t in ch if t > zone.rule_instants(L)[0] - 86400]
+    else:
+        ch = zone.change_instants(); tail = []
+    pick = ch if len(ch) <= 60 else ([ch[0], ch[-1]] + tail[-6:] + rng.sample(ch, 52))
     for t in pick:
         ob = zone.offset_at(t - 1)[0]; oa = zone.offset_at(t)[0]
         lo, hi = sorted((t + ob, t + oa))
@@ -299,6 +346,7 @@ def civil_probes(zone, rng, n_random=40):
                 out.add(x + rng.choice([1, 2, 17, (I64MAX - x) // K400 - 1, (I64MAX - x) // K400]) * K400)
     for _ in range(n_random):
         out.add(rng.randrange(-2**33, 2**34))
+    out.update(seam)
     res = []
     for x in out:
         cs = C.civil_of_sec(x)
@@ -308,4 +356,7 @@ def civil_probes(zone, rng, n_random=40):
             (-292277022657, 1, 27, 8, 29, 52), (-292277022657, 1, 27, 8, 29, 51), (-292277022657, 1, 26, 8, 29, 52), (-292277022657, 1, 28, 8, 29, 52),
             (292277026597, 1, 1, 0, 0, 0), (-292277022658, 1, 1, 0, 0, 0)]
     res += last_year_civils(zone)
+    # year boundaries and the leap-day neighbourhood in years around the 400-year cycle seams, negative years included
+    for y in (-800, -799, -401, -400, -399, -398, -1, 0, 1, 399, 400, 401, 1600, 1999, 2000, 2001, rng.randrange(-5000, 5000) * 400 - 399, rng.randrange(-5000, 5000)):
+        res += [(y - 1, 12, 31, 23, 59, 59), (y, 1, 1, 0, 0, 0), (y, 1, 31, 12, 0, 0), (y, 2, 28, 23, 59, 59), (y, 3, 1, 0, 0, 0), (y, 12, 31, 23, 59, 59)]
     return sorted(set(res))
